@@ -60,3 +60,16 @@ Section Pack.
         end
     end.
 End Pack.
+
+(* ---------------- lift.vmap / lift.scan: variable_axes entries may be wrapped in flax.typing.In / Out ---------------- *)
+(* _split_in_out_axes: an entry without a marker has an in axis and an out axis, In(axis) only an in axis, Out(axis) only an out
+   axis; the filters with an in axis are pack's in filters, those with an out axis its out filters *)
+Inductive axmark := AxBoth (a : Z) | AxIn (a : Z) | AxOut (a : Z).
+Definition ax_of (m : axmark) : Z := match m with AxBoth a | AxIn a | AxOut a => a end.
+Definition is_out (m : axmark) : bool := match m with AxOut _ => true | _ => false end.
+Definition is_in (m : axmark) : bool := match m with AxIn _ => true | _ => false end.
+Definition split_in_out (xs : list (filt * axmark)) : list (filt * Z) * list (filt * Z) :=
+  (map (fun fm => (fst fm, ax_of (snd fm))) (filter (fun fm => negb (is_out (snd fm))) xs),
+   map (fun fm => (fst fm, ax_of (snd fm))) (filter (fun fm => negb (is_in (snd fm))) xs)).
+Definition in_filters (xs : list (filt * axmark)) : list filt := map fst (fst (split_in_out xs)).
+Definition out_filters (xs : list (filt * axmark)) : list filt := map fst (snd (split_in_out xs)).
